@@ -3,7 +3,10 @@
 Metamorphic + differential.  A chart (all five games) is built twice through the public list classes: once in
 the generated row order and once with every list permuted the way the library itself produces unsorted lists
 (unsorted construction, `append` without sort one item at a time, concatenation of two lists, reverse sort,
-`iloc` re-ordering that keeps the row labels).  Each listed operation f is run on both by the REAL code and
+`iloc` re-ordering that keeps the row labels) or, in half of the cases, reached through an ordinary list HISTORY
+(`build_history`: sorted pieces concatenated, a sorted list filtered / cut at a time / rotated by slices and
+re-appended, reversed by a slice, a sorted list that then received items, columns re-assigned in place after a
+sort; then handed on through deepcopy / another chart's attribute / the constructor / a full slice).  Each listed operation f is run on both by the REAL code and
 the two results are compared under the relation of the property (`Spec/Perm.lean`, evaluated by the driver):
 
   dominant_bpm / scroll_speed (values), sv_normalize / rate / converters / full_ln (multisets of rows),
@@ -29,8 +32,13 @@ THOROUGH_BUDGET_S = 900
 RULE = ("charts of the five games (0-24 hits, 0-8 holds, 1-20 tempo points (thorough: up to 40), 0-16 SVs; chords, notes on tempo "
         "points, SVs coinciding with tempo points / each other, repeated bpm values, exact duplicates of rows; all times "
         "dyadic, tempos from the exactly representable set, so every comparison is an equality) x a permutation of every "
-        "list produced by one of construct / append / concat / revsort / iloc x one of 11 claims (dominant, normalize, "
-        "speed, full_ln, rate, convert (17 entry points), hitsound, write_osu, write_qua, write_sm, write_bms); writer "
+        "list produced by one of construct / append / concat / revsort / iloc or (half of the lists) by a list history "
+        "h:<base>+<post>*: base in sorted pieces concatenated (also re-sorted pieces) / sorted list filtered by a mask and "
+        "re-appended / cut with after()+before() / reversed by [::-1] / rotated by two slices / sorted then items appended / "
+        "columns re-assigned in place after sorted(); posts in deepcopy / assigned to another chart and read back (also "
+        "through the chart's deepcopy) / TimedList(list) / [:]  x one of 11 claims (dominant, normalize, "
+        "speed, full_ln, rate, convert (17 entry points), hitsound, write_osu, write_qua, write_sm, write_bms) or the "
+        "correspondence-only claim bpmlist (current_bpm with and without sort, time_diff, ave_bpm vs Model/BpmList.lean); writer "
         "charts are laid out on a beat grid with tempo changes on measure lines; a small share of cases carries a tie "
         "that makes the result inherently order dependent (two different tempo points at one time, different SVs at one "
         "time, a hit and a hold on one (time, column)) and is only tagged; non-trivial = some list with >= 2 distinct "
@@ -52,13 +60,18 @@ TRUSTED_EXTRA = ["adapters of harness/props/c08.py, c13.py, c06.py reused for sn
 GAMES = ["osu", "qua", "sm", "bms", "o2j"]
 SV_GAMES = ["osu", "qua"]
 HOWS = ["construct", "append", "concat", "revsort", "iloc"]
+# row orders reached through ordinary list histories: "h:<base>[+<post>]*" (see build_history)
+H_BASES = ["sorted_concat", "filter_reappend", "after_before", "reverse_slice", "rotate", "sorted_items", "inplace",
+           "resorted_concat"]
+H_POSTS = ["deepcopy", "via_chart", "via_chart_copy", "ctor", "slice_all"]
 LISTS = ["hits", "holds", "bpms", "svs"]
 E_BPMS = [60, 75, 100, 120, 125, 150, 160, 200, 240, 250, 300, 375, 480, 37.5, 62.5, 187.5]
 E_MULTS = [0.25, 0.5, 0.75, 1, 1.25, 1.5, 2, 3, 4, 0.125]
 WRITER_BPMS = [Fr(b) for b in (60, 75, 100, 120, 125, 150, 200, 240, 250, 300, 375)]
 RATES = [Fr(1, 2), Fr(2), Fr(4), Fr(1, 4), Fr(1), Fr(8)]
 CLAIMS = ["dominant", "normalize", "speed", "full_ln", "rate", "convert", "hitsound",
-          "write_osu", "write_qua", "write_sm", "write_bms"]
+          "write_osu", "write_qua", "write_sm", "write_bms", "bpmlist"]
+DELTA_DEFAULT = R(Fr(0.1))      # `delta=0.1` of BpmList.current_bpm, the exact value of that double
 CONVS = ["BMSToOsu.convert", "BMSToQua.convert", "BMSToSM.convert", "O2JToBMS.convert", "O2JToOsu.convert",
          "O2JToQua.convert", "O2JToSM.convert", "O2JToSM.convert_merge", "OsuToBMS.convert", "OsuToQua.convert",
          "OsuToSM.convert", "QuaToBMS.convert", "QuaToOsu.convert", "QuaToSM.convert", "SMToBMS.convert",
@@ -117,6 +130,8 @@ def build_list(game, kind, rows, how=None, pseed=0):
     items = _items(game, kind, rows)
     if how is None or not items:
         return Cls(items)
+    if how.startswith("h:"):
+        return build_history(game, kind, items, how, pseed)
     p = perm_of(pseed, kind, len(items))
     pit = [items[i] for i in p]
     if how == "construct":
@@ -135,6 +150,84 @@ def build_list(game, kind, rows, how=None, pseed=0):
     if how == "iloc":
         return Cls(Cls(items).df.iloc[p])
     raise ValueError(how)
+
+
+def parse_how(how):
+    """a history `h:<base>+<post>+...` -> (base, posts) or None"""
+    if not isinstance(how, str) or not how.startswith("h:"):
+        return None
+    base, *posts = how[2:].split("+")
+    if base not in H_BASES or len(posts) > 3 or any(q not in H_POSTS for q in posts):
+        return None
+    return base, posts
+
+
+def build_history(game, kind, items, how, pseed):
+    """the same items as a list that reached its row order the way client code does: pieces that were each sorted and
+    then concatenated, a sorted list filtered / cut at a time / sliced and put together again, reversed by a slice,
+    a sorted list that received more items, columns re-assigned in place after a sort; then handed on through
+    deepcopy / another chart's attribute / the list constructor / a full slice.  All choices derive from pseed."""
+    K = _cls(game)
+    Cls = K[kind]
+    base, posts = parse_how(how)
+    rr = random.Random(f"{pseed}:{kind}:{how}")
+    n = len(items)
+    p = perm_of(pseed, kind, n)
+    pit = [items[i] for i in p]
+    if base in ("sorted_concat", "resorted_concat"):
+        k = rr.choice([2, 2, 3])
+        pieces = [[] for _ in range(k)]
+        for it in pit:
+            pieces[rr.randrange(k)].append(it)
+        lst = None
+        for pc in pieces:
+            if not pc:
+                continue
+            piece = Cls(pc).sorted()
+            if base == "resorted_concat":
+                piece = piece.sorted(reverse=True).sorted()
+            lst = piece if lst is None else lst.append(piece)
+    elif base == "filter_reappend":
+        import numpy as np
+        full = Cls(pit).sorted()
+        mask = np.array([rr.random() < 0.5 for _ in range(n)], dtype=bool)
+        lst = full[mask].append(full[~mask])
+    elif base == "after_before":
+        full = Cls(pit).sorted()
+        t = float(rr.choice(full.df["offset"].tolist()))
+        lst = full.after(t).append(full.before(t, include_end=True))
+    elif base == "reverse_slice":
+        lst = Cls(pit).sorted()[::-1]
+    elif base == "rotate":
+        full = Cls(pit).sorted()
+        k = rr.randrange(n)
+        lst = full[k:].append(full[:k])
+    elif base == "sorted_items":
+        k = rr.randrange(1, n) if n > 1 else 1
+        lst = Cls(pit[:k]).sorted()
+        for it in pit[k:]:
+            lst = lst.append(it)
+    elif base == "inplace":
+        lst = Cls(items).sorted()
+        for c in list(lst.df.columns):
+            vals = lst.df[c].tolist()
+            lst.df[c] = [vals[i] for i in p]
+    else:
+        raise ValueError(how)
+    for q in posts:
+        if q == "deepcopy":
+            lst = lst.deepcopy()
+        elif q in ("via_chart", "via_chart_copy"):
+            m0 = K["map"]()
+            setattr(m0, kind, lst)
+            if q == "via_chart_copy":
+                m0 = m0.deepcopy()
+            lst = getattr(m0, kind)
+        elif q == "ctor":
+            lst = Cls(lst)
+        elif q == "slice_all":
+            lst = lst[:]
+    return lst
 
 
 META = dict(
@@ -249,8 +342,21 @@ def reordered(s1, s2):
     return any(s1[k] != s2[k] for k in LISTS)
 
 
+def how_tags(case):
+    out = set()
+    for k, v in case.get("how", {}).items():
+        h = parse_how(v)
+        if h is None:
+            out.add(f"{k}:{v}")
+        else:
+            out.add(f"{k}:history")
+            out.add(f"h:{h[0]}")
+            out.update(f"post:{q}" for q in h[1])
+    return sorted(out)
+
+
 def base_tags(case, s1, s2):
-    tags = [case["game"]] + sorted({f"{k}:{v}" for k, v in case.get("how", {}).items()})
+    tags = [case["game"]] + how_tags(case)
     if reordered(s1, s2):
         tags.append("reordered")
     n = len(s1["bpms"])
@@ -679,7 +785,7 @@ def run_hitsound(case, drv):
     from reamber.algorithms.osu.hitsound_copy import hitsound_copy
     src1, src2, ss1, ss2 = setup(case, "src")
     tgt1, tgt2, st1, st2 = setup(case, "tgt")
-    tags = ["osu"] + sorted({f"{k}:{v}" for k, v in case.get("how", {}).items()})
+    tags = ["osu"] + how_tags(case)
     if reordered(ss1, ss2) or reordered(st1, st2):
         tags.append("reordered")
     out = []
@@ -876,16 +982,119 @@ def run_write_bms(case, drv):
         same = texts[0][:2] == texts[1][:2] and texts[0][0] == "err"
     return _write_result("write_bms", case, drv, s1, s2, texts, dens, same, extra_tags=extra)
 
+# ------------------------------------------------------------------------------------------ BpmList list-level queries
+
+def run_bpmlist(case, drv):
+    """BpmList.current_bpm (sort=True / sort=False), TimedList.time_diff, BpmList.ave_bpm on the tempo list in both row
+    orders against the models of Model/BpmList.lean (current_bpm_perm, time_diff_perm, ave_bpm_order_counterexample).
+    The property's statement does not name these routines: nothing is demanded of the implementation here (`ok`), the
+    claim keeps the models of the theorems tied to the code (`agree`); a dependence on row order is tagged."""
+    m1, m2, s1, s2 = setup(case)
+    tags = base_tags(case, s1, s2)
+    t, delta, last = F(case["t"]), F(case["delta"]), F(case["last"])
+    d = domain(drv, s1)
+    dom = d["tempo_ties_equal"]
+    if not dom:
+        tags.append("tempo-tie-order-dependent")
+    out = []
+    for m in (m1, m2):
+        b = m.bpms
+        o = {}
+        for name, kw in (("cur", {}), ("cur_nosort", dict(sort=False))):
+            try:
+                x = b.current_bpm(float(t), delta=float(delta), **kw)
+                o[name] = ["ok", [fr(x.offset), fr(x.bpm)]]
+            except Exception as e:
+                o[name] = ["err", err_class(e)]
+        try:
+            o["diff"] = ["ok", [fr(v) for v in b.time_diff(float(last)).tolist()]]
+        except Exception as e:
+            o["diff"] = ["err", err_class(e)]
+        try:
+            v = float(b.ave_bpm(float(last)))
+            o["ave"] = ["ok", Fr(v) if math.isfinite(v) else None]
+        except Exception as e:
+            o["ave"] = ["err", err_class(e)]
+        try:
+            ds = b.describe()
+            o["describe"] = ["ok", {c: {k: fr(ds[c][k]) for k in ("count", "mean", "std", "min", "25%", "50%", "75%", "max")}
+                                    for c in ("offset", "bpm")}]
+        except Exception as e:
+            o["describe"] = ["err", err_class(e)]
+        out.append(o)
+    mo = [drv.call("c15.bpmlist", bpms=s["bpms"], t=R(t), delta=R(delta), last=R(last))["ok"] for s in (s1, s2)]
+    agree = True
+    for o, mm, s in zip(out, mo, (s1, s2)):
+        for name in ("cur", "cur_nosort"):
+            if o[name][0] == "ok":
+                # tied tempo points: `sorted()` is pandas' default (unstable) sort, the model's is stable - which of the tied
+                # rows is returned is not determined there; its time is
+                k = 2 if (dom or name == "cur_nosort") else 1
+                agree = agree and mm[name] is not None and [F(mm[name][0]), F(mm[name][1])][:k] == o[name][1][:k]
+            else:
+                agree = agree and mm[name] is None and o[name][1] == "index"
+        agree = agree and o["diff"][0] == "ok" and [F(x) for x in mm["diff"]] == o["diff"][1]
+        first = min(F(r[0]) for r in s["bpms"])
+        if last != first:
+            agree = agree and o["ave"][0] == "ok" and o["ave"][1] is not None and close(F(mm["ave"]), o["ave"][1])
+        agree = agree and o["describe"][0] == "ok"
+        if o["describe"][0] == "ok":
+            for c in ("offset", "bpm"):
+                got, want = o["describe"][1][c], mm["describe_" + c]
+                agree = agree and got["count"] == want["count"]
+                for k, kk in (("mean", "mean"), ("min", "min"), ("25%", "q25"), ("50%", "q50"), ("75%", "q75"), ("max", "max")):
+                    agree = agree and got[k] is not None and close(F(want[kk]), got[k])
+                if want["count"] >= 2:
+                    agree = agree and got["std"] is not None and close(F(want["var"]), got["std"] * got["std"])
+    # the conclusions of the theorems on the model
+    agree = agree and mo[0]["describe_offset"] == mo[1]["describe_offset"] and mo[0]["describe_bpm"] == mo[1]["describe_bpm"]
+    if out[0]["describe"] != out[1]["describe"]:
+        tags.append("describe-follows-row-order(float summation order)")
+    agree = agree and mo[0]["diff"] == mo[1]["diff"] and (not dom or mo[0]["cur"] == mo[1]["cur"])
+    if out[0]["cur"] != out[1]["cur"]:
+        tags.append("current-bpm-follows-row-order")
+    if out[0]["cur_nosort"] != out[1]["cur_nosort"]:
+        tags.append("current-bpm-nosort-follows-row-order")
+    if out[0]["diff"] != out[1]["diff"]:
+        tags.append("time-diff-follows-row-order")
+    if out[0]["ave"] != out[1]["ave"]:
+        tags.append("ave-bpm-follows-row-order")
+    return res("bpmlist", True, agree, dom, tags, reordered(s1, s2) and len(s1["bpms"]) >= 2,
+               dict(impl=[str(o)[:1500] for o in out], model=mo, bpms=s1["bpms"], bpms_permuted=s2["bpms"]))
+
 
 RUNNERS = dict(dominant=run_dominant, normalize=run_normalize, speed=run_speed, full_ln=run_full_ln, rate=run_rate,
                convert=run_convert, hitsound=run_hitsound, write_osu=run_write_osu, write_qua=run_write_qua,
-               write_sm=run_write_sm, write_bms=run_write_bms)
+               write_sm=run_write_sm, write_bms=run_write_bms, bpmlist=run_bpmlist)
+
+
+def n15b_shape(case):
+    """predicate of the open finding N15b: on the permuted chart one note list is empty and the other is a ONE-row
+    list whose row labels are a descending RangeIndex (a one-row list reversed by `lst[::-1]`).  pandas (2.3.3)
+    raises `Shape of passed values is (1, n), indices imply (0, n)` when it concatenates these two frames, so
+    full_ln and hitsound_copy (pd.concat of the note frames) raise on such a chart although its row ORDER is that
+    of the plainly constructed one."""
+    import pandas as pd
+    try:
+        for which in (("src", "tgt") if case["claim"] == "hitsound" else ("chart",)):
+            m = build_map(case, which, True)
+            dfs = [m.hits.df, m.holds.df]
+            for a, b in (dfs, dfs[::-1]):
+                if len(a) == 0 and len(b) == 1 and isinstance(b.index, pd.RangeIndex) and b.index.step < 0:
+                    return True
+    except Exception:
+        pass
+    return False
 
 
 def run(case, drv):
     warnings.simplefilter("ignore")
     logging.disable(logging.WARNING)
-    return RUNNERS[case["claim"]](case, drv)
+    r = RUNNERS[case["claim"]](case, drv)
+    if not r["ok"] and r["kf"] is None and case["claim"] in ("full_ln", "hitsound") and n15b_shape(case):
+        r["kf"], r["dom"] = "N15b", False
+        r["tags"] = r["tags"] + ["one-row-descending-rangeindex-next-to-empty(N15b)"]
+    return r
 
 
 # ------------------------------------------------------------------------------------------ generators
@@ -1034,25 +1243,37 @@ def gen_hitsound(rng, tier):
     return src, tgt
 
 
-def gen_how(rng, game):
+def gen_one_how(rng, hist_p):
+    if rng.random() >= hist_p:
+        return rng.choice(HOWS)
+    posts = [rng.choice(H_POSTS) for _ in range(rng.choice([0, 0, 1, 1, 2]))]
+    return "h:" + "+".join([rng.choice(H_BASES)] + posts)
+
+
+def gen_how(rng, game, hist_p=0.5):
     style = rng.random()
     if style < 0.35:
-        h = rng.choice(HOWS)
+        h = gen_one_how(rng, hist_p)
         return {k: h for k in LISTS}
-    return {k: rng.choice(HOWS) for k in LISTS}
+    return {k: gen_one_how(rng, hist_p) for k in LISTS}
 
 
-def gen(rng, tier, i):
+def gen_search(rng, tier, i):
+    """the stream of the search for a failing input: the same charts, row orders mostly reached through histories"""
+    return gen(rng, tier, i, hist_p=0.85)
+
+
+def gen(rng, tier, i, hist_p=0.5):
     claim = rng.choice(["dominant", "dominant", "normalize", "speed", "speed", "full_ln", "full_ln", "rate", "convert",
-                        "convert", "hitsound", "write_osu", "write_qua", "write_sm", "write_bms"])
+                        "convert", "hitsound", "write_osu", "write_qua", "write_sm", "write_bms", "bpmlist"])
     pseed = rng.randrange(1 << 30)
     if claim == "hitsound":
         src, tgt = gen_hitsound(rng, tier)
-        return dict(claim=claim, game="osu", pseed=pseed, how=gen_how(rng, "osu"), src=src, tgt=tgt, keys=7)
+        return dict(claim=claim, game="osu", pseed=pseed, how=gen_how(rng, "osu", hist_p), src=src, tgt=tgt, keys=7)
     if claim.startswith("write_"):
         game = claim.split("_")[1]
         chart, keys, bp = gen_grid_chart(rng, tier, game)
-        c = dict(claim=claim, game=game, pseed=pseed, how=gen_how(rng, game), chart=chart, keys=keys)
+        c = dict(claim=claim, game=game, pseed=pseed, how=gen_how(rng, game, hist_p), chart=chart, keys=keys)
         if game == "sm":
             c["sm_offset"] = min(bp, key=lambda p: F(p[0]))[0]
         return c
@@ -1071,8 +1292,10 @@ def gen(rng, tier, i):
         ties = "sv"
     elif q < 0.1 and claim == "full_ln":
         ties = "note"
+    elif q < 0.06 and claim == "bpmlist":
+        ties = "tempo"
     chart, keys = gen_free_chart(rng, tier, game, ties)
-    c = dict(claim=claim, game=game, pseed=pseed, how=gen_how(rng, game), chart=chart, keys=keys)
+    c = dict(claim=claim, game=game, pseed=pseed, how=gen_how(rng, game, hist_p), chart=chart, keys=keys)
     if claim in ("normalize", "speed"):
         q = rng.random()
         c["override"] = R(Fr(rng.choice(E_BPMS))) if q < 0.3 else (R(0) if q < 0.34 else None)
@@ -1083,6 +1306,16 @@ def gen(rng, tier, i):
         c["r"] = R(rng.choice(RATES))
     if claim == "convert":
         c["conv"] = conv
+    if claim == "bpmlist":
+        times = sorted(F(r[0]) for r in chart["bpms"])
+        offs = [F(r[0]) for k in LISTS for r in chart[k]]
+        q = rng.random()
+        t = rng.choice(times) if q < 0.35 else (times[0] - rng.choice([125, Fr(1, 8), Fr(1, 16)]) if q < 0.5 else
+                                                min(offs) + g_time(rng, 45000))
+        c["t"] = R(t)
+        c["delta"] = rng.choice([DELTA_DEFAULT, DELTA_DEFAULT, R(0), R(Fr(1, 8)), R(1)])
+        last = max(offs) + rng.choice([0, 125, 1000]) if rng.random() < 0.7 else rng.choice(times) + rng.choice([0, Fr(125, 2)])
+        c["last"] = R(last if last != 0 else Fr(125))
     return c
 
 
@@ -1125,6 +1358,21 @@ def corpus():
         c.append(_c("write_" + g, g, hits=[(0, 0), (500, 1), (2000, 3), (2250, 0)], holds=[(1000, 2, 500)],
                     bpms=[(0, 120), (2000, 240), (3000, 60)], svs=[(0, 1), (500, 2)] if g in SV_GAMES else [],
                     how="append", pseed=3, sm_offset=R(0)))
+    # row orders reached through list histories: two sections whose tempo points interleave, each section sorted, then
+    # concatenated; the same through another chart and a deepcopy
+    for cl, g, kw in (("dominant", "osu", {}), ("dominant", "sm", {}), ("normalize", "qua", dict(override=None)),
+                      ("speed", "osu", dict(override=None)), ("speed", "bms", dict(override=None))):
+        for ps in (1, 2, 3):
+            for h in ("h:sorted_concat", "h:sorted_concat+via_chart_copy", "h:resorted_concat+deepcopy", "h:rotate+ctor",
+                      "h:reverse_slice+slice_all", "h:inplace"):
+                c.append(_c(cl, g, hits=[(0, 0), (1000, 1), (21000, 3), (30000, 1), (5000, 1), (16000, 2)], holds=[(2000, 3, 700)],
+                            bpms=[(0, 120), (20000, 150), (5000, 200), (12000, 75)],
+                            svs=[(2500, 1.5), (25000, 2), (8000, 0.5)] if g in SV_GAMES else [], how=h, pseed=ps, **kw))
+    for ps in (1, 2):
+        c.append(_c("bpmlist", "osu", hits=[(0, 0), (4000, 1)], bpms=[(0, 100), (1000, 200), (1250, 150)], how="revsort", pseed=ps,
+                    t=R(1100), delta=DELTA_DEFAULT, last=R(4000)))
+        c.append(_c("bpmlist", "bms", hits=[(0, 0), (4000, 1)], bpms=[(500, 100), (1000, 200)], how="h:sorted_concat", pseed=ps,
+                    t=R(0), delta=R(0), last=R(2000)))
     s = lambda hs=0, f="", v=20: dict(hs=hs, ss=0, ad=0, cs=0, v=v, f=f)
     c.append(dict(claim="hitsound", game="osu", pseed=2, how={k: "revsort" for k in LISTS}, keys=7,
                   src=dict(hits=[[R(0), 0, s(2)], [R(0), 1, s(4, "a.wav")], [R(0), 2, s(8, "b.wav", 30)], [R(500), 0, s(0, "c.wav")]],
@@ -1166,7 +1414,7 @@ def valid(case):
     try:
         if case["claim"] not in CLAIMS or case["game"] not in GAMES:
             return False
-        if not isinstance(case.get("pseed"), int) or any(case["how"].get(k) not in HOWS for k in LISTS):
+        if not isinstance(case.get("pseed"), int) or any(case["how"].get(k) not in HOWS and parse_how(case["how"].get(k)) is None for k in LISTS):
             return False
         if case["claim"] == "hitsound":
             return case["game"] == "osu" and all(
@@ -1189,6 +1437,10 @@ def valid(case):
             return False
         if case["claim"] == "rate" and not (_isR(case["r"]) and F(case["r"]) > 0 and
                                             (F(case["r"]).numerator & (F(case["r"]).numerator - 1)) == 0):
+            return False
+        if case["claim"] == "bpmlist" and not (_isR(case.get("t")) and _isR(case.get("last")) and F(case["last"]) != 0 and
+                                               (case.get("delta") == DELTA_DEFAULT or
+                                                (_isR(case.get("delta")) and F(case["delta"]) >= 0))):
             return False
         if case["claim"] == "convert" and (case.get("conv") not in CONVS or
                                            not case["conv"].startswith([k for k, v in SRC_OF.items() if v == case["game"]][0] + "To")):
